@@ -23,7 +23,7 @@ def generate(rng, tier):
         buf = rand_buffered(rng, sp, 0.4)
         script = E.script_str(E.rand_script(rng, len(data))) if rng.random() < 0.3 else "-"
         cap = rng.choice(["def", "def", "0", "1", "7", "16", "100"])
-        cfg = E.cfg_str(allow=allow, buffered=buf, cap=cap, eof=rng.choice([1, 1, 0]))
+        cfg = E.cfg_str(allow=allow, maxs=safe_max(rng, kind), buffered=buf, cap=cap, eof=rng.choice([1, 1, 0]))
         cases.append(Case("R %s %s %s %s N" % (sp.s(), cfg, script, data.hex() or "-"), kind))
     return cases
 
